@@ -163,4 +163,68 @@ def Clause.eval (sets : String → String → Bool) (p : Pkt) : Clause → Bool
 def Rule.fires (sets : String → String → Bool) (p : Pkt) (r : Rule) : Bool :=
   r.clauses.all (Clause.eval sets p)
 
+
+/-! ### flowtableManager: the flowtable device set -/
+
+/-- `flowtableManager` with the mock handlers' last `SetOverlayDevices` (one list per target) and
+`SetExternalDevices` (the same list for every target).  `pattern` models `devicePattern.MatchString`. -/
+structure FtMgr where
+  targets : List (List String)      -- overlayDevices of each flowtableTarget
+  activeOverlay : List String       -- set.Set[string]
+  activeExternal : List String
+  dirty : Bool
+  last : Option (List (List String) × List String)
+
+def FtMgr.new (targets : List (List String)) : FtMgr :=
+  { targets := targets, activeOverlay := [], activeExternal := [], dirty := true, last := none }
+
+/-- `isOverlayDevice`. -/
+def FtMgr.isOverlayDevice (m : FtMgr) (name : String) : Bool := m.targets.any (fun t => t.contains name)
+
+def sortStrings (l : List String) : List String := l.mergeSort (fun a b => a ≤ b)
+
+/-- `OnUpdate(*ifaceStateUpdate)`. -/
+def FtMgr.onIface (pattern : String → Bool) (m : FtMgr) (name : String) (up : Bool) : FtMgr :=
+  if m.isOverlayDevice name then
+    if up then
+      if m.activeOverlay.contains name then m
+      else { m with activeOverlay := name :: m.activeOverlay, dirty := true }
+    else
+      if !m.activeOverlay.contains name then m
+      else { m with activeOverlay := m.activeOverlay.filter (· != name), dirty := true }
+  else if pattern name then
+    if up then
+      if m.activeExternal.contains name then m
+      else { m with activeExternal := name :: m.activeExternal, dirty := true }
+    else
+      if !m.activeExternal.contains name then m
+      else { m with activeExternal := m.activeExternal.filter (· != name), dirty := true }
+  else m
+
+/-- `CompleteDeferredWork`. -/
+def FtMgr.complete (m : FtMgr) : FtMgr :=
+  if !m.dirty then m
+  else
+    let external := sortStrings m.activeExternal
+    let overlays := m.targets.map (fun t => sortStrings (t.filter (fun d => m.activeOverlay.contains d)))
+    { m with last := some (overlays, external), dirty := false }
+
+inductive FtOp
+  | iface (name : String) (up : Bool)
+  | complete
+
+def FtMgr.step (pattern : String → Bool) (m : FtMgr) : FtOp → FtMgr
+  | .iface n u => m.onIface pattern n u
+  | .complete => m.complete
+
+def ftRun (pattern : String → Bool) (targets : List (List String)) (ops : List FtOp) : FtMgr :=
+  ops.foldl (FtMgr.step pattern) (FtMgr.new targets)
+
+/-- Specification: which interfaces are up = what the last state update of each said. -/
+def ftUpStep (u : String → Bool) : FtOp → (String → Bool)
+  | .iface n s => fun x => if x = n then s else u x
+  | .complete => u
+
+def ftUp (ops : List FtOp) : String → Bool := ops.foldl ftUpStep (fun _ => false)
+
 end CalicoVerif.C41
